@@ -652,6 +652,27 @@ theorem to_placeholder_passthrough (E : Env) (fuel : Nat) (v : Value) (hm : v.is
       simp [getConv, gck, Ty.isDyn]
     simp [this, apply, applyStep, hm, Ty.isDyn]
 
+/-- … and for EVERY value — marked at any number of layers, ill-typed, anything — and every
+environment and fuel, the conversion to DynamicPseudoType does not panic and, when it returns, returns
+a value whose type conforms to the placeholder (no `RegularPair`, no laws). -/
+theorem no_panic_placeholder_target (E : Env) : ∀ (fuel : Nat) (v : Value),
+    (apply E fuel (.wrap .dyn .dynPass) v).isPanic = false ∧
+    ∀ r, apply E fuel (.wrap .dyn .dynPass) v = .ok r → conformsTo .dyn r = true
+  | 0, _ => ⟨rfl, by simp [apply]⟩
+  | fuel + 1, v => by
+    have ih := no_panic_placeholder_target E fuel v.unmark
+    have hc : ∀ r : Value, conformsTo .dyn r = true := by
+      intro r; simp [conformsTo, Ty.conformErrs]
+    simp only [apply, applyStep]
+    split
+    · cases hr : apply E fuel (.wrap .dyn .dynPass) v.unmark with
+      | ok r0 => exact ⟨rfl, fun r _ => hc r⟩
+      | err e => exact ⟨rfl, by simp⟩
+      | panic w => rw [hr] at ih; simp [Res.isPanic] at ih
+      | unmodelled => exact ⟨rfl, by simp⟩
+    · simp only [Ty.isDyn, if_true]
+      exact ⟨rfl, fun r _ => hc r⟩
+
 /-- The primitive conversions of the model are exactly the keys of
 `primitiveConversionsSafe` / `primitiveConversionsUnsafe` as re-read from the source
 on every check (`Generated/PrimConv.lean`). -/
@@ -737,6 +758,30 @@ theorem safe_sub_unsafe_driver (v : Value) (want : Ty) (p : Plan)
     ∃ p', getConversionUnsafe driverEnv v.ty want = some p' ∧
       ∀ fuel, apply driverEnv fuel p' v = apply driverEnv fuel p v :=
   safe_sub_unsafe_partial _ unifyLaws_driver v want p hp hg
+
+/-! The three counterexamples of this file, restated in the driver's environment — the one whose every
+answer is diffed against the Go code — so that "FALSE of the code" does not rest on a toy
+environment or on a fuel bound chosen by hand. -/
+
+theorem result_resolves_placeholders_counterexample_driver :
+    convert driverEnv 4 ⟨.list (.map .bool), .seq []⟩ (.list (.map .dyn)) =
+      .ok ⟨.list (.map .dyn), .seq []⟩ ∧
+    resolvedIn (.list (.map .bool)) (.list (.map .dyn)) = false ∧
+    convert driverEnv 6 ⟨.list (.map .bool), .seq [.smap ["k"] [.b true]]⟩ (.list (.map .dyn)) =
+      .ok ⟨.list (.map .bool), .seq [.smap ["k"] [.b true]]⟩ := by
+  refine ⟨rfl, by decide, rfl⟩
+
+theorem safe_sub_unsafe_counterexample_driver :
+    (getConversion driverEnv subWitnessT (.map .dyn)).isSome = true ∧
+    (getConversionUnsafe driverEnv subWitnessT (.map .dyn)).isSome = false := by
+  decide
+
+theorem roundtrip_number_string_counterexample_driver :
+    convert driverEnv 2 ⟨.number, .n float1e23⟩ .string = .ok ⟨.string, .s "100000000000000000000000"⟩ ∧
+    convert driverEnv 2 ⟨.string, .s "100000000000000000000000"⟩ .number =
+      .ok ⟨.number, .n (.fin false 11920928955078125 23 512)⟩ ∧
+    Num.rawEqual (.fin false 11920928955078125 23 512) float1e23 = false := by
+  refine ⟨rfl, rfl, by decide⟩
 
 /-- the sample of the non-vacuity section, in the driver's environment: it really finishes -/
 example : (convert driverEnv 8 ⟨.list .bool, .seq [.b true, .null]⟩ (.list .string)).isOk = true := by decide
